@@ -3516,6 +3516,13 @@ blitz(victim *v, uint32_t salt)
 	int n = 1 + (int) vf_below(&br, 6);
 	for (int i = 0; i < n; i++) {
 		int     kind = (int) vf_below(&br, 7);
+		// A burst connection that sends a complete valid handshake becomes a
+		// real pipe for a moment.  A single-peer (PAIR) victim is then busy
+		// until that pipe has gone, which the harness cannot see while the
+		// pipe is still negotiating (the statistics count started pipes), and
+		// a socket:// client cannot try again: there the fresh-client probe
+		// would judge the harness's own race.  tcp/ipc clients redial.
+		if (kind >= 5 && v->vp->single && v->tran == T_SOCKFD) kind -= 3;
 		uint8_t hello[8];
 		char    k[64];
 		int     fd = attacker_connect_stream(v);
